@@ -972,6 +972,11 @@ def cached_script_view(
     if req.method != "GET":
         return HttpResponseNotAllowed(["GET"])
 
+    # NOTE: The URL accepts any text as the script type. E.g. `MyComp_a1b2c3.js:0ab2c3` must not
+    # be looked up, as that is the cache key of the JS variables `MyComp_a1b2c3.0ab2c3.js`.
+    if script_type not in _CONTENT_TYPES:
+        return HttpResponseNotFound()
+
     comp_cls = comp_hash_mapping.get(comp_cls_hash)
     if comp_cls is None:
         return HttpResponseNotFound()
